@@ -38,6 +38,8 @@ FACTORS = [
     ("C(A, contr.sum)", ["A"]), ("center(`c d`)", ["c d"]), ("{`1z` * 2}", ["1z"]), ("`1z`", ["1z"]), ("np.sqrt(b):a", ["a", "b"]),
     # a column whose name equals the sanitised alias of the quoted column `c d`
     ("c_d", ["c_d"]), ("{c_d * 2}", ["c_d"]), ("I(`c d` - c_d)", ["c d", "c_d"]),
+    # a categorical column with a single observed level (emits no column next to an intercept, but is still evaluated)
+    ("K", ["K"]), ("C(K)", ["K"]),
     ("f3(a)(e)", ["a", "e"]), ("{np.stack([b, e], axis=1)[:, 0]}", ["b", "e"]), ("I(f3(b)(a) - e)", ["a", "b", "e"]),
 ]
 METHOD_FACTORS = [("{a.clip(0)}", ["a"]), ("{a.sum() * b}", ["a", "b"]), ("I(b.values)", ["b"]), ("{(a + b).abs()}", ["a", "b"])]
@@ -50,7 +52,7 @@ def frame():
     return pd.DataFrame(
         {
             "u1": np.arange(n) * 1.0, "a": [1.0, 2.5, 3.0, 4.5, 5.0, 7.0], "b": [2.0, 1.0, 4.0, 3.0, 6.0, 5.0], "A": pd.Series(list("xyzxyz"), dtype=object),
-            "c d": [0.5, 1.5, 2.5, 3.5, 4.5, 6.5], "c_d": [3.0, 1.0, 4.0, 1.0, 5.0, 9.0], "e": [9.0, 7.0, 8.0, 3.0, 1.0, 2.0], "1z": [1.0, 0.0, 2.0, 5.0, 3.0, 4.0], "y": [1.0, 3.0, 2.0, 5.0, 4.0, 6.0], "u2": list("pqrpqr"),
+            "c d": [0.5, 1.5, 2.5, 3.5, 4.5, 6.5], "c_d": [3.0, 1.0, 4.0, 1.0, 5.0, 9.0], "e": [9.0, 7.0, 8.0, 3.0, 1.0, 2.0], "1z": [1.0, 0.0, 2.0, 5.0, 3.0, 4.0], "y": [1.0, 3.0, 2.0, 5.0, 4.0, 6.0], "u2": list("pqrpqr"), "K": pd.Series(["k"] * 6, dtype=object),
         }
     )
 
@@ -114,6 +116,26 @@ def check_required(case) -> Outcome:
     R1 = set(map(str, specs.required_variables))
     if R1 != exp:
         out.fail("required-after-materialisation", f"{s!r}: model_spec.required_variables {sorted(R1)} vs {sorted(exp)}", **feat)
+    # pickled / deep-copied results report the same variables, with their sources
+    import copy
+    import pickle
+
+    for how, clone in (("pickle", lambda o: pickle.loads(pickle.dumps(o))), ("deepcopy", copy.deepcopy)):
+        for what, obj in (("spec", specs), ("matrix", mm)):
+            try:
+                c_ = clone(obj)
+            except Exception as e:
+                out.fail("copy-raises", f"{s!r}: {how} of the {what}: {type(e).__name__}: {str(e)[:120]}", **feat)
+                continue
+            sp_ = c_ if what == "spec" else c_.model_spec
+            R2 = set(map(str, sp_.required_variables))
+            def by_source(sp):
+                leaves_ = list(sp._flatten()) if hasattr(sp, "_flatten") else [sp]
+                return [{str(k_): sorted(map(str, v_)) for k_, v_ in l_.variables_by_source.items()} for l_ in leaves_]
+
+            by1, by2 = by_source(specs), by_source(sp_)
+            if R2 != R1 or by1 != by2:
+                out.fail("variables-after-copy", f"{s!r}: {how} of the {what}: required {sorted(R2)} vs {sorted(R1)}; by source {by2} vs {by1}", **feat, how=how)
     # on the full frame the result is the same as on the restricted one
     mm2 = f.get_model_matrix(df, context=CONTEXT)
     for a_, b_ in (((mm.lhs, mm2.lhs), (mm.rhs, mm2.rhs)) if case["lhs"] else ((mm, mm2),)):
@@ -254,6 +276,9 @@ DOT_RHS = [
     ["b", "+", ["u", "+", ["1"]], ["."]],
     ["b", "+", ["u", "-", ["n", "a"]], ["."]],
     ["b", "-", ["u", "+", ["."]], ["n", "b"]],
+    # a column mentioned (inside a call / an interaction) before the dot
+    ["b", "+", ["c", "log(y)", ["y"]], ["."]],
+    ["b", "+", ["b", ":", ["n", "a"], ["n", "b"]], ["."]],
 ]
 LHS = [None, [["n", "y"]], [["c", "log(y)", ["y"]]], [["q", "c d"]], [["b", "+", ["n", "y"], ["n", "b"]]], [["c", "log(y)", ["y"]], ["n", "a"]]]
 
@@ -278,12 +303,18 @@ def check_dot(case) -> Outcome:
     df = pd.DataFrame({c: np.linspace(1, 2, 5) * (i + 1) + (np.arange(5) % 2) * (i + 0.5) for i, c in enumerate(cols)})
     out.label("lhs:%s" % (case["lhs"] % len(LHS)), "parts:%d" % len(rhs_parts))
     out.nontrivial = lhs is not None and any(p[0] in ("c", "q") for p in lhs)
+    as_list = bool(case.get("as_list")) and lhs is None and len(rhs_parts) == 1
     try:
-        exp = R.ev_structured(tree, True, cols, ordered=True)
+        # (a string inside a list spec is read by the nested parser: no implicit intercept)
+        exp = R.ev_structured(tree, not as_list, cols, ordered=True)
     except R.Unspecified:
         out.label("unspecified")
         return out
-    mm = model_matrix(s, df)
+    if as_list:
+        out.label("list-spec")
+        mm = model_matrix([s], df)
+    else:
+        mm = model_matrix(s, df)
     rhs = mm.rhs if lhs is not None else (mm.root if hasattr(mm, "root") and len(rhs_parts) > 1 else mm)
 
     def names_of(T):
@@ -312,7 +343,7 @@ def gen_dot():
             need += R.variables_of(p)
         extra = draw(st.lists(st.sampled_from(["a", "b", "y", "c d", "d", "e"]), max_size=4, unique=True))
         cols = draw(st.permutations(sorted(set(need) | set(extra)) or ["a"]))
-        return {"cols": list(cols), "lhs": lhs, "rhs": rhs}
+        return {"cols": list(cols), "lhs": lhs, "rhs": rhs, "as_list": draw(st.booleans())}
 
     return strat()
 
